@@ -4,6 +4,8 @@
 mod cfg;
 mod ansmsg;
 mod c01;
+mod c07;
+mod c08;
 mod c11;
 mod rangemsg;
 
@@ -44,6 +46,34 @@ fn main() {
         policy: PanicPolicy::AllViolations,
         max_len: 2048,
         run: c11::c11_suffix,
+    },
+    Target {
+        name: "c07_range",
+        props: "C07",
+        policy: PanicPolicy::AllViolations,
+        max_len: 1024,
+        run: c07::c07_range,
+    },
+    Target {
+        name: "c07_ans",
+        props: "C07",
+        policy: PanicPolicy::AllViolations,
+        max_len: 1024,
+        run: c07::c07_ans,
+    },
+    Target {
+        name: "c08_ans",
+        props: "C08",
+        policy: PanicPolicy::AllViolations,
+        max_len: 1024,
+        run: c08::c08_ans,
+    },
+    Target {
+        name: "c08_range",
+        props: "C08",
+        policy: PanicPolicy::AllViolations,
+        max_len: 1024,
+        run: c08::c08_range,
     }];
     vengine::main(&targets);
 }
